@@ -157,7 +157,9 @@ def features(deriv):
 PLAIN = list("abcXYZ019") + ["é", "ü", "凯", "ß"]
 PUNCT = list(".;:!?()[]-+*/<>|_&%#~'@$^")
 BLANK = [" ", " ", "  ", "\t", "\n", "\r\n", "\n  "]
-ESCAPES = ["\\{", "\\}", '\\"', "\\,", "\\=", "\\'e", "\\&", "\\%", "\\#", "\\_", "\\ ", "\\\\ ", "\\\\a", "\\\\\n", "\\@", "\\`a", "\\~n"]
+ESCAPES = ["\\{", "\\}", '\\"', "\\,", "\\=", "\\'e", "\\&", "\\%", "\\#", "\\_", "\\ ", "\\\\ ", "\\\\a", "\\\\\n", "\\@", "\\`a", "\\~n",
+           # escape rule: a delimiter directly after a backslash is literal, also after a backslash pair
+           "\\\\}", "\\\\{", '\\\\"', "\\\\,", "\\\n"]
 DELIMS = set('{}",=')
 
 
@@ -190,16 +192,17 @@ NUMBERS = ["1", "2000", "007", "42", "0"]
 FKEYS = ["title", "author", "year", "Title", "x-y", "a_b", "month", "note", "a", "b", "c", "d", "e"]
 ETYPES = ["article", "Article", "BOOK", "misc", "inproceedings", "a", "x_1", "strin", "comm", "Préface"]
 KEYCH = "abcXYZ019_:.+/-éü凯"
-TEXT_LINES = ["% a comment", "free text, with = and { and }", "e-mail me@example.org", "x", "\"quoted\" #", "@ alone", "}{", "é 凯", "a \\ b", "@notablock"]
+TEXT_LINES = ["% a comment", "free text, with = and { and }", "e-mail me@example.org", "x", "\"quoted\" #", "@ alone", "}{", "é 凯", "a \\ b", "@notablock", "a\x85b", "x\u2028y", "p\x0cq", "v\x1cw \x0b"]
 TOK_CLASSES_BRACED = [PLAIN, PLAIN, PUNCT, BLANK, ESCAPES, [",", "=", '"']]
 TOK_CLASSES_QUOTED = [PLAIN, PLAIN, PUNCT, BLANK, ESCAPES, [",", "="]]
 
 
 def _join_safe(parts):
-    """Concatenate tokens; a backslash pair is never directly followed by a delimiter (escape rule)."""
+    """Concatenate tokens; a *structural* delimiter (the braces of a nested group, the closing delimiter
+    of the region) is never directly preceded by a backslash (escape rule of the dialect)."""
     out = ""
     for p in parts:
-        if out.endswith("\\\\") and p and p[0] in DELIMS:
+        if out.endswith("\\") and len(p) > 1 and p[0] == "{" and p[-1] == "}":
             out += " "
         out += p
     if out.endswith("\\"):
@@ -313,7 +316,7 @@ def gen_document(ints, key_pool=None, string_keys=None, value_extra=None, max_it
             items.append({"k": "comment", "kw": src.pick(["comment", "Comment", "COMMENT"]), "hws": src.pick(HWS), "body": body})
         else:
             lines = [src.pick(TEXT_LINES) for _ in range(1 + src.below(3))]
-            items.append({"k": "text", "body": fix_openers("\n".join(lines))})
+            items.append({"k": "text", "body": fix_openers(src.pick(["\n", "\n", "\r\n", "\n\n"]).join(lines))})
         prev_text = kind == "text"
         items.append({"k": "gap", "ws": src.pick(WS_ANY)})
     return items
